@@ -56,7 +56,7 @@ inductive AttrV where
   | absent      -- no entry
   | good        -- a DataValue with a Variant of the type the readers expect
   | wrongType   -- a DataValue whose Variant has another type
-  | noValue     -- a DataValue without Variant (EncodingMask 0): `.Value` is nil
+  | noValue     -- a DataValue without value (EncodingMask 0): the decoder still allocates an empty Variant
   deriving DecidableEq, Repr
 
 structure St where
@@ -151,12 +151,12 @@ def unsupportedFault : Out := .fault "BadServiceUnsupported"
 def joinCodes (l : List String) : String := ",".intercalate l
 
 /-- `Node.Access`: `access.Value.Value.Value()` on the UserAccessLevel / AccessLevel entry -/
-def accessCheck (a : AttrV) : Option Bool :=   -- none = nil dereference
+def accessCheck (a : AttrV) : Option Bool :=   -- none = nil dereference (not reachable over the wire)
   match a with
   | .absent => some true
   | .good => some true
   | .wrongType => some false      -- `val, ok := val0.(uint8); if !ok { return false }`
-  | .noValue => none
+  | .noValue => some false        -- `DataValue.Decode` always sets `Value = new(Variant)`: nil.(uint8) fails
 
 /-- the loop of DeleteSubscriptions over the requested ids: per-id results and the ids whose
     deletion was started (`go s.DeleteSubscription(subid)`), or the site of the panic -/
@@ -254,9 +254,8 @@ def body (st : St) (t : Tok) : Req → St × Out
       -- td.DataType(): v.Value.Value().(*ua.ExpandedNodeID) on the DataType entry of every target
       if refsTestNode then
         match st.dataTypeAttr with
-        | .noValue => (st, .crash "Node.DataType")
-        | .wrongType => (st, .crash "Node.DataType")
-        | _ => (st, .ok "Good")
+        | .wrongType => (st, .crash "Node.DataType")   -- unchecked type assertion
+        | _ => (st, .ok "Good")                        -- nil value: falls through to the reference scan
       else (st, .ok "Good")
   | .createSubscription iv =>
     let id := st.subs.length + 1
